@@ -305,7 +305,8 @@ class S:
             return True
         return self._cmp(o, lambda a, b: a != b)
 
-    __hash__ = None
+    def __hash__(self):
+        return id(self)
 
     def __bool__(self):
         return bool(SB(self.t != 0))
